@@ -10,6 +10,7 @@ import CSD.Model.RGImage
 import CSD.Model.RPDAC
 import CSD.Model.HashRP
 import CSD.Model.RPDACImage
+import CSD.Model.HRPDACImage
 import CSD.Driver.Util
 
 namespace CSD.Driver
@@ -363,6 +364,27 @@ def checkRpdacImg (img el ml t mc rules : String) : String :=
     if c.listLength != nat el then "V dac-list-length-differs-from-elements" else
     "V ok"
 
+
+/-- The saved image of a real StringDictionaryHASHRPDAC: consumed exactly by the model loader, reproduced byte
+for byte by the model writer, and carrying the counters, the table size and the occupancy bitmap of the object
+(`CSD.HRPDACImg.load_save`). -/
+def checkHrpdacImg (img el ml ts n occ : String) : String :=
+  let nat (s : String) := s.toNat?.getD 0
+  let bytes := unhex img
+  match HRPDACImg.load (bytes ++ [0x55, 0xaa]) with
+  | none => "V model-loader-refuses-the-image"
+  | some (d, rest) =>
+    if rest != [0x55, 0xaa] then "V loader-does-not-consume-exactly-the-image" else
+    if HRPDACImg.save d != bytes then "V model-save-differs-from-the-image" else
+    if d.elements != nat el || d.maxlength != nat ml then "V counters-differ" else
+    if d.tsize != nat ts || d.n != nat n then "V table-header-differs" else
+    if d.bht.n != nat ts then "V bitmap-length-differs-from-the-table-size" else
+    let bits : List Bool := if occ == "-" then [] else occ.toList.map (· == '1')
+    if !((List.range bits.length).all fun i => ((d.bht.data.getD (i / 32) 0) >>> (i % 32)) % 2 == (if bits.getD i false then 1 else 0)) then
+      "V occupancy-bitmap-differs" else
+    if d.rp.cdac.listLength != nat el then "V dac-list-length-differs-from-elements" else
+    "V ok"
+
 def runCheckStreams (c : Case) (emit : Nat → String → IO Unit) : IO Unit := do
   let mut k := 0
   for op in c.ops do
@@ -376,6 +398,7 @@ def runCheckStreams (c : Case) (emit : Nat → String → IO Unit) : IO Unit := 
       emit k (checkHrpf strs qs hs ts occ t mc rules cls offs loc abs)
     | ["rdskip"] => emit k "V ok"
     | ["richk", img, el, ml, t, mc, rules] => emit k (checkRpdacImg img el ml t mc rules)
+    | ["hichk", img, el, ml, ts, n, occ] => emit k (checkHrpdacImg img el ml ts n occ)
     | "bv" :: impl :: par :: n :: h :: _ => emit k (bvLine impl (par.toNat?.getD 0) (n.toNat?.getD 0) h)
     | "bvh" :: _ :: _ :: n :: h :: _ =>
       -- long vectors: the harness checks every select and a grid of rank/access against the plain definitions
